@@ -33,10 +33,14 @@ def forecaster(B, tag="forecaster"):
             yv = args[0] if args else kwargs.get("y")
             if isinstance(yv, SSeries):
                 obj.attrs["cutoff"] = yv.index.fn(ops.simp(Z(yv.index.len) - 1))
+            if name == "fit":
+                obj.attrs["is_fitted"] = True
             return obj
         return m
     f.methods = {"fit": fit_like("fit"), "update": fit_like("update")}
     f.attrs["cutoff"] = Opaque("cutoff-before-fit")
+    # the caller may hand over a forecaster that was fitted before (on other data) or a fresh one
+    f.attrs["is_fitted"] = B.bool(tag + "_fitted_before")
     return f
 
 
